@@ -39,6 +39,25 @@ def check(tier, seed):
         else:
             rep.nontrivial.add((s, xi, src))
     rep.sample(lines[0] + ' -> ' + outs['rust_checked'][0][:120])
+    # bulk: many generated keys - a derivation that goes wrong on one rare stored word (a negative or extremal NTT-domain precompute:
+    # one key in a thousand) is met here; the derived struct must be the generated one, in both build profiles
+    bl, bm = [], []
+    for s in fam.SETS:
+        for t in range(6000 if tier == 'thorough' else 1300):
+            xs = (t * 2654435761 + seed + 11).to_bytes(8, 'little') + bytes(24)
+            bl.append(f"derive {s} gen:{xs.hex()}"); bm.append((s, xs, 'derive'))
+            bl.append(f"pk_from {s} gen:{xs.hex()}"); bm.append((s, xs, 'pk'))
+    bo = {prof: core.run_stream([core.RUST[prof]], bl) for prof in ('checked', 'fast')}
+    for prof in ('checked', 'fast'):
+        for j in range(0, len(bl), 2):
+            rep.evaluations += 1
+            rep.count('bulk derive == generated (struct)')
+            d, g = bo[prof][j], bo[prof][j + 1]
+            if not (d.startswith('ok ') and g.startswith('ok ') and d[3:].split(' bytes=')[0] == g[3:]):
+                rep.violation('implementation-vs-oracle', [bl[j]], {'profile': prof, 'oracle': 'derived public key must equal the generated one field by field',
+                                                                  'derived': d[:200], 'generated': g[:200]}, True)
+            else:
+                rep.nontrivial.add((bm[j][0], bm[j][1], 'bulk'))
     # model agreement on a sample
     sub = [l for l, m_ in zip(lines, meta) if m_[4] == 0 and m_[3] == 'derive']
     so = core.run_ops(sub)
